@@ -40,7 +40,7 @@ impl Property for C18 {
     fn regressions(&self) -> Vec<WorldCase> {
         vec![
             // defect Q: recovery on a fresh pool
-            WorldCase { stakes: vec![1; 4], own: 0, chain_len: vec![1, 1], fin: vec![Fin::No], extras: vec![], seed: 0, spread: 2, ops: vec![WOp::Standstill] },
+            WorldCase { stakes: vec![1; 4], own: 0, chain_len: vec![1, 1], fin: vec![Fin::No], extras: vec![], ghosts: vec![], seed: 0, spread: 2, ops: vec![WOp::Standstill] },
         ]
     }
     fn run(&self, case: &WorldCase) -> Outcome {
